@@ -199,27 +199,27 @@ def _carry(ctx, F):
 LOADERS = ('Memvid::load_vec_index_from_manifest', 'Memvid::load_lex_index_from_manifest', 'Memvid::init_tantivy', 'Memvid::load_clip_index_from_manifest')
 
 
-def _open_order(ctx, F):
-    ctx.rule('MPT-C14d', 'open_locked: every index loader runs before recover_wal (replay rebuilds from the in-memory indexes)')
+def _open_order(ctx, F, rule='MPT-C14d'):
+    ctx.rule(rule, 'open_locked: every index loader runs before recover_wal (replay rebuilds from the in-memory indexes)')
     for key in ('Memvid::open_locked',):
-        fn = ctx.need('MPT-C14d', key)
+        fn = ctx.need(rule, key)
         if fn is None:
             continue
         ctx.touch(fn, len(fn.blocks))
         rw = fn.calls_to('Memvid::recover_wal')
         loads = [c for c in fn.calls() if c.is_(LOADERS)]
-        ctx.floor('MPT-C14d', len(loads), 3, 'index loaders in open_locked')
+        ctx.floor(rule, len(loads), 3, 'index loaders in open_locked')
         if not rw:
-            ctx.lost('MPT-C14d', 'open_locked no longer calls recover_wal')
+            ctx.lost(rule, 'open_locked no longer calls recover_wal')
             continue
         after = fn.reachable(rw[0].bb) - {rw[0].bb}
         for l in loads:
             ctx.evaluations += 1
             if l.bb in after:
-                ctx.bad('MPT-C14d', fn, '%s can run after recover_wal: the WAL replay rebuilds and persists the index from an empty in-memory index (committed vectors are lost)'
+                ctx.bad(rule, fn, '%s can run after recover_wal: the WAL replay rebuilds and persists the index from an empty in-memory index (committed vectors are lost)'
                         % l.key.split('::')[-1], line=l.line, detail='loader-after-replay:' + l.key.split('::')[-1])
             else:
-                ctx.ok('MPT-C14d', fn, '%s runs before the WAL replay' % l.key.split('::')[-1], line=l.line)
+                ctx.ok(rule, fn, '%s runs before the WAL replay' % l.key.split('::')[-1], line=l.line)
         # the vector loader must be reachable at all before the replay when vec is enabled
         if not any(l.is_('Memvid::load_vec_index_from_manifest') and rw[0].bb in fn.reachable(l.bb) for l in loads):
-            ctx.bad('MPT-C14d', fn, 'the vector index is not loaded before the WAL replay', detail='vec-not-loaded-before-replay')
+            ctx.bad(rule, fn, 'the vector index is not loaded before the WAL replay', detail='vec-not-loaded-before-replay')
